@@ -500,9 +500,12 @@ impl Compiler {
                 result
             }
             Node::MainBlock { body, local_count } => {
+                let Ok(local_count) = u8::try_from(*local_count) else {
+                    return self.error(FrameError::LocalRegisterOverflow);
+                };
                 self.compile_frame(
                     FrameParameters {
-                        local_count: *local_count as u8,
+                        local_count,
                         expressions: body,
                         args: &[],
                         captures: &[],
@@ -675,13 +678,15 @@ impl Compiler {
             is_generator,
         } = params;
 
-        self.frame_stack.push(Frame::new(
+        let frame = Frame::new(
             local_count,
             &self.collect_args(args, ctx)?,
             captures,
             output_type,
             is_generator,
-        ));
+        )
+        .map_err(|e| self.make_error(e))?;
+        self.frame_stack.push(frame);
 
         // Check argument types and unpack nested args
         for (arg_index, arg) in args.iter().enumerate() {
